@@ -164,7 +164,6 @@ Proof.
       set (R := round_div m x e16) in *. set (R' := round_div m (- x) e16) in *.
       rewrite nfit_ufix64. unfold e16 in *.
       brk; try lia; try reflexivity.
-      exfalso. apply Hd. split; lia.
   - assert (Hx: 0 <= x < 2 ^ 128) by (rewrite p128; lia).
     pose proof (round_div_nonneg_ge m x ltac:(lia)) as G.
     destruct Ht as [->| ->]; unfold conv_model_round, conv_fix64_round, conv_ufix64_round.
